@@ -261,7 +261,7 @@ func runScenario(sc tlive.Scenario, seed uint64) childLine {
 	for {
 		attempts++
 		res = tlive.Run(sc, seed+uint64(attempts))
-		if tlive.MissingStarts(res) == 0 || attempts >= 3 {
+		if res.NotQuiet != "" || tlive.MissingStarts(res) == 0 || attempts >= 3 {
 			break
 		}
 		counts["live-rerun-after-missing-start"]++
@@ -270,6 +270,13 @@ func runScenario(sc tlive.Scenario, seed uint64) childLine {
 	snaps := tlive.PickSnaps(sc, res, 6)
 	l.Term = tlive.Term(sc, res, snaps)
 	l.NonTriv = liveNontrivial(sc, res)
+	if res.NotQuiet == "" {
+		idle := sc.IdleUs * 1000
+		if idle == 0 {
+			idle = int64(30 * time.Second)
+		}
+		l.Ex = &exInput{IdleNs: idle, MaxW: sc.MaxW, WCap: res.WakeCap, Tokens0: res.Tokens0, Evs: tlive.Events(res), Family: sc.Family}
+	}
 	counts["family:"+sc.Family]++
 	counts[fmt.Sprintf("idle_us:%d", sc.IdleUs)]++
 	counts[fmt.Sprintf("maxw:%d", sc.MaxW)]++
@@ -313,6 +320,10 @@ func runScenario(sc tlive.Scenario, seed uint64) childLine {
 			counts["live-started"]++
 		}
 	}
+	if res.NotQuiet != "" {
+		l.Direct = append(l.Direct, directV{What: "the package did not wind down after the previous scenario (pending futures without a worker, or workers that never exit)", Detail: res.NotQuiet})
+		l.Stop = true
+	}
 	for _, p := range res.Panics {
 		l.Direct = append(l.Direct, directV{What: "panic in Call/Cancel", Detail: p})
 	}
@@ -340,7 +351,7 @@ func runChild(fl *hx.Flags) {
 		panic(err)
 	}
 	w := bufio.NewWriterSize(fh, 1<<20)
-	enc := json.NewEncoder(w)
+	enc := &flushEnc{json.NewEncoder(w), w}
 	defer func() { w.Flush(); fh.Close() }()
 	if fl.From != "" {
 		for _, sc := range hx.ReadCases[tlive.Scenario](fl.From) {
@@ -350,29 +361,47 @@ func runChild(fl *hx.Flags) {
 		return
 	}
 	thorough := fl.Tier == "thorough"
-	budget, maxN := 24*time.Second, 400
+	budget, maxN := 12*time.Second, 400
 	if thorough {
 		budget, maxN = 420*time.Second, 8000
 	}
 	t0 := time.Now()
+	var prev *tlive.Scenario
 	for k := 0; k < maxN && time.Since(t0) < budget; k++ {
 		idx := uint64(*childIdx) + uint64(k)*uint64(*nChild)
 		sc := genLive(fl.Seed, idx, thorough)
-		// scenarios with the 30 s default idle timeout leave workers behind that only the
-		// token flush of Quiesce removes; fine, but keep them rare in the quick tier
-		enc.Encode(runScenario(sc, fl.Seed^idx))
+		l := runScenario(sc, fl.Seed^idx)
+		if l.Stop {
+			// the scenario was not run: the previous one left the package in a state that
+			// never becomes quiescent; that one is the replay candidate
+			if prev != nil {
+				l.Case = *prev
+			}
+			enc.Encode(l)
+			break
+		}
+		enc.Encode(l)
+		prev = &sc
 	}
 	flushLate(enc)
 }
 
 // callbacks that started after their scenario was closed are violations of "at most once /
 // never after cancel" that no scenario record holds; report them on a pseudo case
-func flushLate(enc *json.Encoder) {
+func flushLate(enc *flushEnc) {
 	tlive.Quiesce(5 * time.Second)
 	time.Sleep(20 * time.Millisecond)
 	if len(tlive.LateEvents) > 0 {
-		l := childLine{Case: tlive.Scenario{Kind: "live", Family: "late-events"}, Term: "mkLC 10 10 [] [] 0", Counts: map[string]int{}}
+		l := childLine{Case: *tlive.LateScenario, Term: "mkLC 10 10 [] [] 0", Counts: map[string]int{}}
 		l.Direct = append(l.Direct, directV{What: "callback started after its scenario was closed", Detail: tlive.LateEvents})
 		enc.Encode(l)
 	}
 }
+
+// flushEnc writes one JSON line and flushes, so that a crash loses nothing that was observed
+type flushEnc struct {
+	e *json.Encoder
+	w *bufio.Writer
+}
+
+func (f *flushEnc) Encode(v any) { f.e.Encode(v); f.w.Flush() }
